@@ -896,7 +896,8 @@ class Filter(base.Filter):
 
     def sanitize_css(self, style):
         # disallow urls
-        style = re.compile(r'url\s*\([^)]*\)\s*').sub(' ', style)
+        # (function names are ASCII case-insensitive in CSS)
+        style = re.compile(r'url\s*\([^)]*\)\s*', re.I).sub(' ', style)
 
         # gauntlet
         if not re.match(r"""^([:,;#%.\sa-zA-Z0-9!]|\w-\w|'[\s\w]+'|"[\s\w]+"|\([\d,\s]+\))*$""", style):
